@@ -169,6 +169,48 @@ def run_spec(spec, rec=None):
                          wbk.show(e), wbk.show_outcome(oa), {'sheet': sh['title'], 'cell': wbk.a1(c, r)})
                 elif ob[0] != 'value' or not same_typed(e, ob[1]):
                     fail('file-loaded-class-agrees', f'file-class:{kind}', wbk.show(e), wbk.show_outcome(ob), {'sheet': sh['title'], 'cell': wbk.a1(c, r)})
+        # the class reports the titles and sizes of the workbook whenever it is asked - also after an executor on the same class object was
+        # given a cell beyond the used range (that executor's own view grows, the workbook's does not)
+        grow = wbk.outcome(lambda: ex_a.set_cells([wbk.Cell(0, exp_sizes[0]['last_column'] + 2, exp_sizes[0]['last_row'] + 3, 1)]))
+        if grow[0] == 'value':
+            again = wbk.outcome(lambda: (cls_a().get_sheets_size(), cls_a().get_titles(),
+                                         wbk.Executor().set_executed_class(class_object=cls_a).get_executed_class().get_sheets_size()))
+            if rec:
+                rec.case({'spec': spec, 'q': 'sizes-again'}, True, ['q:sizes-after-another-executor-grew'])
+            if again[0] == 'value' and (again[1][0] != exp_sizes or again[1][2] != exp_sizes or again[1][1] != exp_titles):
+                fail('sizes-are-used-range', 'sizes:after-another-executor-grew', exp_sizes, [again[1][0], again[1][2]])
+            elif again[0] not in ('value', 'timeout'):
+                fail('sizes-are-used-range', 'sizes:after-another-executor-grew:raises:' + again[1], exp_sizes, wbk.show_outcome(again))
+        # one Parser that was pointed at another workbook before (same title at another sheet index, another content at the coordinate)
+        # and keeps its entry cell: the cell is read from the workbook that is set now, at its real sheet / column / row
+        target = next(((si, c, r, e) for si, exp in enumerate(expect) for (c, r), e in sorted(exp.items())
+                       if not (isinstance(spec['sheets'][si]['cells'] and dict(((cc, rr), vv) for cc, rr, vv in spec['sheets'][si]['cells'])[(c, r)], str)
+                               and str(dict(((cc, rr), vv) for cc, rr, vv in spec['sheets'][si]['cells'])[(c, r)]).startswith('='))), None)
+        if target is not None and spec.get('reuse_parser', True):
+            si, c, r, e = target
+            title = spec['sheets'][si]['title']
+            decoy = {'sheets': [{'title': f'Decoy{k}', 'cells': {'A1': k}} for k in range(si + 1)] +
+                     [{'title': title, 'cells': {wbk.a1(c, r): 'decoy', 'A1': 'decoy too'}}]}
+            decoy_path = wbk.write_xlsx(decoy)
+            try:
+                def go():
+                    prs = wbk.Parser().set_excel_file_path(decoy_path).set_entrypoint_cell(wbk.Cell(title, wbk.get_column_letter(c), str(r)))
+                    prs.get_translation()
+                    prs.set_excel_file_path(path)
+                    cls = wbk.load_source(prs.get_translation())
+                    return wbk.Executor().set_executed_class(class_object=cls).get_cell(wbk.Cell(title, wbk.get_column_letter(c), str(r))).value
+                og = wbk.outcome(go)
+                if rec:
+                    rec.case({'spec': spec, 'q': 'reused-parser'}, True, ['q:entry-cell-after-path-change'],
+                             sample={'sheet': title, 'cell': wbk.a1(c, r), 'expected': wbk.show(e)})
+                if og[0] != 'timeout' and (og[0] != 'value' or not same_typed(e, og[1])):
+                    fail('value-and-type-at-coordinate', 'reused-parser:entry-cell' + (':raises:' + og[1] if og[0] != 'value' else ''), wbk.show(e), wbk.show_outcome(og),
+                         {'sheet': title, 'cell': wbk.a1(c, r), 'history': 'Parser: decoy workbook + entry cell, translate, set_excel_file_path(this workbook), translate'})
+            finally:
+                try:
+                    os.unlink(decoy_path)
+                except OSError:
+                    pass
         return fails
     finally:
         try:
